@@ -60,7 +60,8 @@ ASSUMPTIONS = ['expected values come from integer microsecond arithmetic on date
                'truncate (DONT-CARE)',
                'cases where now, t or now+w would leave datetime.min..max are not generated (DONT-CARE), except '
                'for normalize_time where OverflowError is demanded exactly when the UTC instant is unrepresentable']
-SHARDS = {'quick': 1, 'thorough': 16}
+INTERPRETER_FLAGS = [[], ['-O'], [], ['-bb']]
+SHARDS = {'quick': 4, 'thorough': 16}
 
 US = 10 ** 6
 US_MIN = 60 * US
